@@ -68,6 +68,8 @@ def main():
         meta['detected'] = bool(meta['steps'].get('check', {}).get('violation_line'))
     finally:
         sh('git -C /repo worktree remove --force %s' % wt)
+        # the check regenerated lean/RomeaModel/Generated/* from the modified worktree: restore the committed files
+        sh('git -C %s checkout -- lean/RomeaModel/Generated evidence/%s.json' % (VERIF, pid))
     out = os.path.join(VERIF, 'seeded', name)
     os.makedirs(out, exist_ok=True)
     for f in ('patch.diff', 'demo.cpp', 'demo.sh', 'notes.txt'):
